@@ -24,12 +24,14 @@ package cbreaker
 // ---- C12: the recovery ramp ---------------------------------------------------------------------
 
 //@ func (*ratioController).computeRatio
+//@   nooverflow
 //@   props C12
 //@   requires allowed >= 0 && denied >= 0
 //@   ensures empty: allowed + denied == 0 ==> result == 0.0
 //@   ensures ratio: allowed + denied != 0 ==> result == real(allowed) / real(allowed + denied)
 
 //@ func (*ratioController).targetRatio
+//@   nooverflow
 //@   props C12
 //@   holds CircuitBreaker.m
 //@   assume clock_stable
@@ -37,6 +39,7 @@ package cbreaker
 //@   ensures half_of_elapsed_fraction: result == 0.5 / real(r.duration) * real(lastclock - r.start)
 
 //@ func (*ratioController).allowRequest
+//@   nooverflow
 //@   props C12 C05
 //@   holds CircuitBreaker.m
 //@   assume clock_stable
